@@ -181,6 +181,38 @@ fn main() {
             ctx.sample(json!({"index": i, "surface_program": text, "form": if c.as_query { "proto_vulcan_query!" } else { "proto_vulcan!" }, "answers": answers.len()}));
         }
     }
+    // C14: `lterm!` denotes the written term
+    if id == "C14" && ctx.replay.is_none() {
+        let env: pvmc::conv::Env<prelude::DU, prelude::DE> = pvmc::conv::Env::new(2);
+        let expected = pvmc::surface::c14_lterm_terms();
+        match guarded(|| generated::lterms(&env.vars[0], &env.vars[1])) {
+            Ok(built) => {
+                if built.len() != expected.len() {
+                    ctx.machinery_errors.push("generated lterm! list is stale".into());
+                }
+                fn same(a: &T, b: &T) -> bool {
+                    match (a, b) {
+                        (T::W, T::A(_)) => true,
+                        (T::Cons(h1, t1), T::Cons(h2, t2)) => same(h1, h2) && same(t1, t2),
+                        (x, y) => x == y,
+                    }
+                }
+                for (k, (e, l)) in expected.iter().zip(built.iter()).enumerate() {
+                    let mut dec = pvmc::conv::Dec::new(Some(&env));
+                    let got = dec.dec(l);
+                    evaluated += 1;
+                    // every `_` must be its own anonymous variable
+                    let distinct_anys = dec.any_flags.iter().all(|f| *f);
+                    if !same(e, &got) || !distinct_anys {
+                        ctx.violation(Violation { kind: "lterm-differs".into(), sig: format!("lterm!({})", pvmc::surface::term(e, false)), site: String::new(), detail: format!("lterm! builds {}", got), family: family.clone(), index: 100_000 + k, schedule: vec![], data: Value::Null });
+                    } else {
+                        ctx.hist("lterm-terms", 1);
+                    }
+                }
+            }
+            Err(e) => ctx.violation(Violation { kind: "panic".into(), sig: "lterm! list".into(), site: String::new(), detail: format!("{:?}", e), family: family.clone(), index: 100_000, schedule: vec![], data: Value::Null }),
+        }
+    }
     ctx.set("evaluations", json!(evaluated));
     ctx.set("programs", json!(evaluated));
     ctx.set("states", json!(evaluated));
